@@ -163,7 +163,14 @@ theorem rounds_example : ∃ dbC db1 dbR1 db2 dbR2 pt2 tbls2,
     subst hl
     exact ⟨by decide, by decide⟩
   obtain ⟨db2, _, _, e2, _⟩ := evalUpdate_refines_specV dbR1 pt1 (clean sch1) tbls1 sdbA1 sdbA2 hk1.abs tname
-    [([97], .lit (.int 7))] (some (condEq 5)) hvalid specA2
+    [([97], .lit (.int 7))] (some (condEq 5)) hvalid
+    (by
+      intro p hp
+      simp only [List.mem_singleton] at hp
+      subst hp
+      rw [nameStr_a]
+      exact a_bytes)
+    specA2
   have run2 : SpecRun (clean sch1) dbR1 sdbA1 [.update tname [([97], .lit (.int 7))] (some (condEq 5))] db2 sdbA2 :=
     .update tname [([97], .lit (.int 7))] (some (condEq 5)) hvalid specA2 e2 (.nil db2 sdbA2)
   obtain ⟨dbR2, pt2, tbls2, er2, hw2, hk2⟩ := hk1.recover_round run2 [] []
